@@ -125,10 +125,10 @@ SAFETY = "TypeOK Subsequence OnlyAuthorized OnlySubscribed ReadyGetsAll ReadyGet
 
 
 # ------------------------------------------------------------------ 1. design checks
-def design_cast(writers, streamers, subs, opensubs, maxseq, maxresub, B=1):
+def design_cast(writers, streamers, subs, opensubs, maxseq, maxresub, B=1, late=()):
     ws = {
-        "w1": {"id": "w1", "keys": ["k1", "k2"], "auth": {"k1": 2, "k2": 2}, "late": False},
-        "w2": {"id": "w2", "keys": ["k1"], "auth": {"k1": 1, "k2": 0}, "late": False},
+        "w1": {"id": "w1", "keys": ["k1", "k2"], "auth": {"k1": 2, "k2": 2}, "late": "w1" in late},
+        "w2": {"id": "w2", "keys": ["k1"], "auth": {"k1": 1, "k2": 0}, "late": "w2" in late},
     }
     return {"keys": [{"id": "k1"}, {"id": "k2"}], "writers": [ws[w] for w in writers], "streamers": streamers,
             "subs": subs, "opensubs": opensubs, "maxseq": maxseq, "maxresub": maxresub, "B": B, "outcap": 1}
@@ -138,7 +138,7 @@ def design(ctx, thorough):
     """Exhaustive TLC runs on Relay.tla. Returns (states, transitions, runs)."""
     runs = []
     never = []
-    COV_RUNS = ("qb", "qo")
+    COV_RUNS = ("qb", "qo", "ql")
     workers = min(12, vlib.NCPU) if thorough else min(8, vlib.NCPU)
 
     def go(tag, cast, props="", expect=None, deadlock=True, **kw):
@@ -172,6 +172,9 @@ def design(ctx, thorough):
        CloseModes=tla_set(["graceful"]))
     # cancel-mode close and orphaning by DBClose
     go("qo", design_cast(["w1"], ["s1"], [["k2"]], k12, 2, 1), Ready=tla_set(["s1"]), AllowOrphan="TRUE")
+    # a writer with more authority opens (gate by gate) while the other one is writing
+    go("ql", design_cast(["w1", "w2"], ["s1"], [["k1"]], k12, 2, 0, late=("w1",)), Ready=tla_set(["s1"]),
+       CloseModes=tla_set(["graceful"]))
     live = "WritersProgress CloseCompletes OpenCompletes ResubCompletes"
     go("live", design_cast(["w1"], ["s1", "s2"], [["k2"]], k12, 1, 0), props=live + " ReadyEventually",
        Ready=tla_set(["s1"]), CloseModes=tla_set(["graceful"]))
